@@ -126,7 +126,11 @@ def clause_c(facts, rep):
                             calls.append((e.get('cname'), args))
                             return 7        # an opaque output position
                         return None
-                    Interp(f, facts, call_hook=hook).run({f.params[0]['id']: 4096, f.params[1]['id']: val}, {})
+                    try:
+                        Interp(f, facts, call_hook=hook).run({f.params[0]['id']: 4096, f.params[1]['id']: val}, {})
+                    except UndefinedBehaviour as ex:
+                        bad = 'val = %d: undefined behaviour: %s' % (val, ex)
+                        break
                     names = [c[0] for c in calls]
                     ok = False
                     if names == ['Utoa_1_8']:
@@ -140,7 +144,7 @@ def clause_c(facts, rep):
                     if not ok:
                         bad = 'val = %d -> %s' % (val, calls)
                         break
-            except (Unsupported, UndefinedBehaviour) as ex:
+            except Unsupported as ex:
                 raise AnalysisBroken('C08.c: U64toa dispatch not evaluable: %s' % ex)
             rep.check(bad is None, 'E5.split', f.qn, 'dispatch hands on an exact group decomposition at all %d digit-count boundaries' % len(pts), f.loc,
                       (bad or '') + ' - groups must satisfy val = hi*10^8 + lo, hi in [1,10^8), lo < 10^8 (or the whole value for <= 8 / >= 17 digits)', facts.config)
